@@ -6,7 +6,7 @@ class C12(Prop):
     check_mod = "C12"
     drivers = [dict(pkg="internal/core", test="TestVerifC12", timeout=600)]
     n_quick = 64          # histories of 12 edits each (1/8 of them over HTTP)
-    n_thorough = 4000
+    n_thorough = 2000
     shard = 16
     search_factor = 4
     ready = False
